@@ -60,7 +60,7 @@ def run_one(m, props, tier):
     res = {}
     try:
         for pid in props:
-            env = dict(os.environ, VERIF_REPO=d, VERIF_EVIDENCE_DIR=os.path.join(d, "evidence"), VERIF_REPLAY_DIR=os.path.join(d, "replays"))
+            env = dict(os.environ, VERIF_REPO=d, VERIF_EVIDENCE_DIR=os.path.join(d, "evidence"), VERIF_REPLAY_DIR=os.path.join(d, "replays"), VERIF_NO_SHRINK="1")
             r = subprocess.run([os.path.join(HERE, "check"), pid, "--tier", tier], env=env, capture_output=True, text=True)
             viol = [l for l in r.stdout.splitlines() if l.startswith("VIOLATION")]
             res[pid] = (r.returncode, len(viol), r.stdout[-1500:] + r.stderr[-800:])
